@@ -202,8 +202,20 @@ fn main() {
         let big = if thorough { 25000 } else { 12000 };
         let sizes: Vec<u32> = vec![0, 1, 2, 99, 100, 101, 199, 200, 201, 9999, 10000, 10001, big];
         let limits: Vec<u64> = vec![0, 1, 2, 7, 99, 100, 101, 9999, 10000, 10001, u32::MAX as u64];
+        // (size, limit, selector padding): the last group has selectors too long for a token
+        let mut scans: Vec<(u32, u64, usize)> = vec![];
         for &n in &sizes {
             for &lim in &limits {
+                scans.push((n, lim, usize::MAX));
+            }
+        }
+        for n in [0u32, 1, 150] {
+            for lim in [0u64, 1, 200] {
+                scans.push((n, lim, 450));
+            }
+        }
+        {
+            for &(n, lim, padspec) in &scans {
                 // scans of many tiny pages are capped (quick) to keep the trace small
                 let pages_needed = if lim == 0 { n as u64 / 100 } else { n as u64 / lim.min(10000) };
                 if pages_needed > if thorough { 3000 } else { 250 } {
@@ -211,9 +223,11 @@ fn main() {
                 }
                 for order in ["asc", "desc"] {
                     ctx.n.store(n, Ordering::SeqCst);
-                    ctx.pad.store(r.gen_range(0..20), Ordering::SeqCst);
+                    let pad = if padspec == usize::MAX { r.gen_range(0..20) } else { padspec };
+                    ctx.pad.store(pad, Ordering::SeqCst);
                     // TLC integers are 32-bit: any limit above the server maximum is equivalent
                     emit("reset", json!({"kind": "scan", "n": n, "lim": lim.min(i32::MAX as u64), "order": order,
+                        "big": pad >= 400,
                         "max": 10000, "def": 100}));
                     let mut token: Option<String> = None;
                     let mut fetched = 0u64;
@@ -355,6 +369,10 @@ fn main() {
             let encoded_len = b64(format!("{{\"v\":\"v1\",\"page_start\":{}}}", serde_json::to_string(&sel).unwrap()).as_bytes()).len();
             let page = ResultsPage::new(vec![Item { v: 1 }], &Scan { order: None, min: None }, |_: &Item, _: &Scan| sel.clone());
             match page {
+                Ok(p) if p.next_page.is_none() => {
+                    // a non-empty page without a token: neither issued nor refused
+                    emit("issue", json!({"len": 0, "enc": encoded_len, "out": "none", "roundtrip": false}));
+                }
                 Ok(p) => {
                     let tok = p.next_page.unwrap();
                     let back = serde_urlencoded::from_str::<PaginationParams<Scan, Sel>>(&format!("page_token={}", pct(&tok)));
@@ -373,7 +391,22 @@ fn main() {
             }
             let (tok, _sel) = &issued_tokens[r.gen_range(0..issued_tokens.len())];
             let mut b: Vec<u8> = tok.as_bytes().to_vec();
-            match r.gen_range(0..6) {
+            match r.gen_range(0..8) {
+                6 => {
+                    // extra data after (or white space around) the JSON document
+                    if let Ok(mut j) = base64::engine::general_purpose::URL_SAFE.decode(&b) {
+                        let extra: &[u8] = [&b"}"[..], b"x", b" 1", b"[]", b" ", b"\n\t ", b"{\"v\":\"v1\"}", b",", b"\0"][r.gen_range(0..9)];
+                        j.extend_from_slice(extra);
+                        b = b64(&j).into_bytes();
+                    }
+                }
+                7 => {
+                    if let Ok(j) = base64::engine::general_purpose::URL_SAFE.decode(&b) {
+                        let mut k = [&b" "[..], b"\n", b"x", b"\xef\xbb\xbf"][r.gen_range(0..4)].to_vec();
+                        k.extend_from_slice(&j);
+                        b = b64(&k).into_bytes();
+                    }
+                }
                 0 => { let i = r.gen_range(0..b.len()); b[i] = b"ABCDabcd0189-_=+/"[r.gen_range(0..17)]; }
                 1 => { let k = r.gen_range(1..b.len()); b.truncate(k); }
                 2 => { b.push(b"Aa0="[r.gen_range(0..4)]); }
